@@ -9,6 +9,7 @@ from checks import callcommon
 from framework import Case, Finding
 
 PROP = "C15"
+GENERATED = ['DtypeTables']  # generated files this check's tie depends on
 LEAN_MODULES = ["Properties.C15"]
 RULE = (
     "seeded contexts (1-3 arrays, zero-sized and zero-rank included, dtypes from the shared categories bool / int8-64 / uint8-64 / "
